@@ -1467,7 +1467,7 @@ func main() {
 			if tier == "thorough" {
 				return 12000
 			}
-			return 640
+			return 480
 		},
 		Run:         run,
 		CaseTimeout: 15 * time.Minute,
